@@ -49,16 +49,20 @@ inductive PatternPart where
   | mk (pathVar : Option String) (shortest allShortest : Bool) (first : NodePat) (steps : List (RelPat × NodePat))
 end
 
+deriving instance Repr, BEq for Expr, NodePat, RelPat, PatternPart
+
 instance : Inhabited Expr := ⟨.lit .null⟩
 instance : Inhabited NodePat := ⟨.mk none [] []⟩
 
 inductive Clause where
   | «match» (optional : Bool) (patterns : List PatternPart) (wh : Option Expr)
   | unwind (e : Expr) (v : String)
+deriving Repr, BEq
 
 structure ProjItem where
   e : Expr
   alias : Option String
+deriving Repr, BEq
 
 structure Projection where
   distinct : Bool
@@ -67,16 +71,19 @@ structure Projection where
   orderBy : List (Expr × Bool)                 -- (key, ascending)
   skip : Option Expr
   limit : Option Expr
+deriving Repr, BEq
 
 structure Part where
   clauses : List Clause
   proj : Projection                            -- WITH …
   wh : Option Expr                             -- WITH … WHERE
+deriving Repr, BEq
 
 structure Query where
   parts : List Part
   clauses : List Clause
   ret : Projection
+deriving Repr, BEq
 
 def NodePat.var : NodePat → Option String | .mk v _ _ => v
 def NodePat.kinds : NodePat → List String | .mk _ k _ => k
